@@ -25,7 +25,17 @@ WRITER_SRC = dict(driver="writer", model="RtpsWriter.tla", trace_module="Trace_R
                          "thorough": dict(mc=[("MC_RtpsWriter_t_all.cfg", 12), ("MC_RtpsWriter_t_vol.cfg", 12)], replay_limit=40000, random=dict(runs=1500, events=300))})
 
 
+# "every sample is delivered, whatever was lost" rests on the reader asking EVERY matched writer for what it misses.  Several
+# writers per reader with independent heartbeat counters and losses are cheap in the reader driver and expensive between real
+# participants, so its random runs are a source of this check too, and the clause that says "a missing sample was not asked
+# for" counts here under its own name.
+READER_SRC = dict(driver="reader", model="RtpsReader.tla", trace_module="Trace_RtpsReader.tla", trace_cfg="Trace_RtpsReader.cfg",
+                  tiers={"quick": dict(mc=[], random=dict(runs=240, events=200)),
+                         "thorough": dict(mc=[], random=dict(runs=3000, events=400))})
+DELIVERY_CLAUSES = ("C03_lowest_missing_not_requested",)
+
+
 def run(pid, tier, seed, replay=None):
     return run_pipeline(pid, tier, seed, replay, driver="system", model="System.tla",
                         trace_module="Trace_System.tla", trace_cfg="Trace_System.cfg",
-                        tiers=TIERS, prefixes=(pid + "_",), assumptions=ASSUME, known_env=("KNOWN_S16", "KNOWN_S3"), extra_sources=(WRITER_SRC,))
+                        tiers=TIERS, prefixes=(pid + "_",) + DELIVERY_CLAUSES, assumptions=ASSUME, known_env=("KNOWN_S16", "KNOWN_S3"), extra_sources=(WRITER_SRC, READER_SRC))
